@@ -253,6 +253,11 @@ package task
 //@   on go (*Manager).updateTaskState when arg2 == "ERROR" : errSpawned = true
 //@   on call calls.Kill : assert notOwned ; killed = true
 //@   ensures (mst == mesos.TASK_LOST || mst == mesos.TASK_KILLED || mst == mesos.TASK_FAILED || mst == mesos.TASK_ERROR) && found && lockedSeen ==> errSpawned
+// C18, the other direction: a reconciliation answer that reports the task alive (staging, starting, running, being
+// killed) is let through without a KILL only after the task was looked up and found locked, i.e. owned.
+//@   ghostvar isRec bool = false
+//@   on aftercall (mesos.TaskStatus_Reason).String : isRec = (result == "REASON_RECONCILIATION")
+//@   [C18] ensures isRec && (mst == mesos.TASK_STAGING || mst == mesos.TASK_STARTING || mst == mesos.TASK_RUNNING || mst == mesos.TASK_KILLING) && !killed ==> found && lockedSeen
 
 // updateTaskState: a task in the roster takes the new state and hands it to its role
 //@ func (m *Manager) updateTaskState(taskId string, state string)
@@ -484,6 +489,20 @@ package task
 //@   ensures task != nil && !own && task.parent != nil ==> roleAsked
 
 // ---------------------------------------------------------------------------------------------------------
+// C03 / C18: a status update never takes a task's lock away. A task counts as owned ("locked") while its agent and
+// executor ids are set; handleMessage forwards a terminal status only for locked tasks (so that the failure of a
+// critical task reaches its role and the environment goes to ERROR) and kills tasks that answer a reconciliation
+// unlocked. Reconciliation answers from the master carry no executor id: the ids are overwritten only with ids that
+// are present. (Assumed of Mesos: an id that is present is not the empty string.)
+//@ func (m *Manager) updateTaskStatus(status *mesos.TaskStatus)
+//@   property C03 C18
+//@   requires m != nil && status != nil
+//@   requires status.ExecutorID != nil ==> status.ExecutorID.Value != ""
+//@   requires status.AgentID != nil ==> status.AgentID.Value != ""
+//@   on store task.Task.executorId : assert value != ""
+//@   on store task.Task.agentId : assert value != ""
+
+// ---------------------------------------------------------------------------------------------------------
 // C05: the ports handed to a task come from the offer: every dynamic port and the control port is the minimum of what is
 // left of the offer's ports after cutting the reserved low range, is taken only when something IS left (Ranges.Min
 // panics on empty ranges - a genuine defect found here, repaired by a fix: commit), and is subtracted from what is left
@@ -494,11 +513,18 @@ package task
 //@   ghostvar haveMin bool = false
 //@   ghostvar spanned bool = false
 //@   ghostvar cut bool = false
-//@   on aftercall resources.Ports : cut = false
-//@   on call (mesos.Ranges).Remove : assert arg1.Begin == 0 && (arg1.End == 8999 || arg1.End == 29999) ; cut = true
+//@   ghostvar cur bool = false
+//@   ghostvar pv mesos.Ranges = nil
+//@   ghostvar rm mesos.Ranges = nil
+// every port is chosen from a view of the offer's ports taken AFTER the last subtraction (a view taken earlier still
+// contains the ports already given to this task's channels), cut, and not from anything else
+//@   on aftercall resources.Ports : cut = false ; cur = true ; pv = result0
+//@   on call (mesos.Ranges).Remove : assert arg1.Begin == 0 && (arg1.End == 8999 || arg1.End == 29999) && arg0 == pv ; cut = true
+//@   on aftercall (mesos.Ranges).Remove : rm = result
+//@   on call (mesos.Ranges).Min : assert cur && arg0 == rm
 //@   on aftercall (mesos.Ranges).Min : assert !haveMin && cut ; lastMin = result ; haveMin = true ; spanned = false
 //@   on call (*resources.RangeBuilder).Span when haveMin : assert arg1 == lastMin && arg2 == lastMin ; spanned = true
-//@   on call (*mesos.Resources).Subtract : assert haveMin && spanned ; haveMin = false
+//@   on call (*mesos.Resources).Subtract : assert haveMin && spanned ; haveMin = false ; cur = false
 //@   on call channel.NewBoundTcpEndpoint : assert !haveMin && arg0 == lastMin
 //@   loop 1 invariant !haveMin
 //@   ensures t != nil ==> !haveMin
